@@ -88,7 +88,8 @@ def case_st(draw):
             "footer": draw(st.sampled_from(["", "", "the end"])),
             "comments": draw(st.sampled_from(["# ", "# ", "% ", "//"])),
             "writer": draw(st.sampled_from(["numpoly", "numpoly", "numpy"])),
-            "target": draw(st.sampled_from(["str", "path", "stringio", "file", "str", "path", "gz", "bz2"])),
+            "target": draw(st.sampled_from(["str", "path", "stringio", "file", "str", "path", "gz", "bz2", "xz", "lzma", "bytesio", "binary-file", "lines", "generator"])),
+            "encoding": draw(st.sampled_from([None, None, None, "utf-8", "utf-16", "latin1"])),
         })
     return case
 
@@ -227,12 +228,30 @@ def check_case(case, ctx):
     with tempfile.TemporaryDirectory() as tmp:
         path = os.path.join(tmp, "poly.txt")
         t = case["target"]
-        if t in ("gz", "bz2"):
+        enc = case.get("encoding") if t in ("str", "path", "gz", "bz2", "xz", "lzma") else None
+        if enc == "latin1" and any(ord(ch) > 255 for ch in "".join(str(k) for k in p.keys) + case["header"] + case["footer"]):
+            enc = None  # (latin1 cannot hold these keys: numpy.savetxt itself raises)
+        if enc == "utf-16" and t in ("xz", "lzma", "bz2"):
+            enc = None  # (numpy's own writer/reader pair fails for this combination)
+        if enc:
+            kw["encoding"] = enc
+            lkw["encoding"] = enc
+            if enc != "utf-8" and case["header"]:
+                kw["header"] = case["header"] + " \u00e9"  # a character whose bytes differ between the encodings
+        if t in ("gz", "bz2", "xz", "lzma"):
             # numpy.savetxt compresses by file name and numpy.loadtxt reads such files transparently
             path = path + "." + t
         try:
-            if t in ("str", "gz", "bz2"):
+            if t in ("str", "gz", "bz2", "xz", "lzma", "lines", "generator"):
                 writer(path, p, **kw)
+            elif t == "bytesio":
+                buf = io.BytesIO()
+                writer(buf, p, **kw)
+                with open(path, "wb") as fh:
+                    fh.write(buf.getvalue())
+            elif t == "binary-file":
+                with open(path, "wb") as fh:
+                    writer(fh, p, **kw)
             elif t == "path":
                 writer(pathlib.Path(path), p, **kw)
             elif t == "stringio":
@@ -244,17 +263,32 @@ def check_case(case, ctx):
                 with open(path, "w") as fh:
                     writer(fh, p, **kw)
         except Exception as err:
+            if t in ("bytesio", "binary-file") and isinstance(err, UnicodeEncodeError):
+                # numpy.savetxt writes latin1 to byte streams: keys beyond U+00FF cannot be written there,
+                # and an error is what the properties ask for in that case
+                ctx.discard_case("byte-stream-cannot-hold-the-keys")
+                return []
             return fail("savetxt-exception:%s:%s" % (type(err).__name__, cls), repr(err))
-        if t in ("gz", "bz2"):
-            import bz2
-            import gzip
-            with (gzip.open if t == "gz" else bz2.open)(path, "rt") as fh:
-                text = fh.read()
-        else:
-            text = open(path).read()
+        import bz2
+        import gzip
+        import lzma
+        opener = {"gz": gzip.open, "bz2": bz2.open, "xz": lzma.open, "lzma": lzma.open}.get(t, open)
+        with opener(path, "rt", encoding=enc or ("latin1" if t in ("bytesio", "binary-file") else None)) as fh:
+            text = fh.read()
         try:
-            if t in ("str", "gz", "bz2"):
+            if t in ("str", "gz", "bz2", "xz", "lzma"):
                 q = numpoly.loadtxt(path, **lkw)
+            elif t == "lines":
+                q = numpoly.loadtxt(text.splitlines(True) if "\x85" not in text and "\u2028" not in text
+                                    else text.split("\n"), **lkw)
+            elif t == "generator":
+                q = numpoly.loadtxt((line for line in text.split("\n")), **lkw)
+            elif t == "bytesio":
+                with open(path, "rb") as fh:
+                    q = numpoly.loadtxt(io.BytesIO(fh.read()), **lkw)
+            elif t == "binary-file":
+                with open(path, "rb") as fh:
+                    q = numpoly.loadtxt(fh, **lkw)
             elif t == "path":
                 q = numpoly.loadtxt(pathlib.Path(path), **lkw)
             elif t == "stringio":
